@@ -17,7 +17,8 @@ RULE = (
     "period), medium and large requests, session_id != station_id, ideal and two-stage batteries "
     "that throttle; algorithm in {greedy, round-robin} x 5 sort orders x uninterrupted_charging x "
     "estimate_max_rate (SimpleRampdown with generated thresholds) x continuous_inc in "
-    "{0.1,0.5,1,2.5} x max_recompute in {1,2,None}. A wrapper captures EVERY schedule returned "
+    "{0.1,0.5,1,2.5} x max_recompute in {1,2,None}; in a third of the constrained cases a constraint "
+    "limit is changed (update_constraint) in the middle of the run. A wrapper captures EVERY schedule returned "
     "and the dictionary the estimator returned for that call. Oracle per emitted schedule: (1) "
     "feasible by the exact phasor predicate (guard band 1e-10(1+limit)); (2) every value accepted "
     "by an independent EVSE predicate (interval / level list, 1e-3 A); (3) pilot <= remaining "
@@ -51,8 +52,10 @@ def make_post(spec, h, stats):
     limits = [c["limit"] for c in spec["constraints"]]
     sch = spec["scheduler"]
     period = spec["period"]
+    stats["limits"] = limits  # kept current by the observer when a constraint is updated mid-run
 
     def post(algo, active, out):
+        limits = stats["limits"]
         t = algo.interface.current_time
         ctx = "period %d %s/%s" % (t, sch["kind"], sch["sort"])
         require(sorted(out) == sorted(ids), "every_station_in_schedule", lambda: "%s: schedule keys %r" % (ctx, sorted(out)))
@@ -109,10 +112,35 @@ def make_post(spec, h, stats):
     return post
 
 
+def make_updater(spec, h, stats):
+    """Observer applying the generated mid-run constraint updates (the site operator changes a
+    limit while the simulation is running) before the algorithm is asked for a schedule."""
+    from acnportal.acnsim import Current
+
+    pending = sorted(spec.get("updates", []), key=lambda u: u["t"])
+    cons = {c["name"]: c for c in spec["constraints"]}
+    names = [c["name"] for c in spec["constraints"]]
+
+    def observer(algo, active):
+        t = algo.interface.current_time
+        while pending and pending[0]["t"] <= t:
+            u = pending.pop(0)
+            c = cons[u["name"]]
+            h.net.update_constraint(u["name"], Current(dict(c["coeffs"])), u["limit"])
+            lim = list(stats["limits"])
+            lim[names.index(u["name"])] = u["limit"]
+            stats["limits"] = lim
+            stats["updates_applied"] += 1
+
+    return observer
+
+
 def prop(spec, rec):
-    stats = {"ambiguous": 0, "estimator_active": 0, "binding": 0, "schedules": 0}
+    stats = {"ambiguous": 0, "estimator_active": 0, "binding": 0, "schedules": 0, "updates_applied": 0}
     h = sc.build_sim(spec)
     h.scheduler.post = make_post(spec, h, stats)
+    if spec.get("updates"):
+        h.scheduler.observer = make_updater(spec, h, stats)
     orig = np.random.normal
     np.random.normal = h.feed
     try:
@@ -141,12 +169,27 @@ def prop(spec, rec):
         labels.add("has_continuous_evse")
     if any(s["kind"] == "finite" for s in spec["stations"]):
         labels.add("has_finite_evse")
+    if stats["updates_applied"]:
+        labels.add("constraint_updated_mid_run")
     rec.count("schedules", stats["schedules"])
     rec.count("ambiguous", stats["ambiguous"])
     rec.case(spec, labels, bool(stats["binding"] or stats["estimator_active"]))
 
 
-def cases():
+@st.composite
+def cases(draw):
+    spec = draw(base_cases())
+    if spec["constraints"] and draw(st.integers(0, 2)) == 0:
+        last = max(s["departure"] for s in spec["sessions"])
+        ups = []
+        for _ in range(draw(st.integers(1, 2))):
+            c = draw(st.sampled_from(spec["constraints"]))
+            ups.append({"t": draw(st.integers(1, max(1, last - 1))), "name": c["name"], "limit": draw(st.sampled_from([8.0, 12.0, 20.0, 33.0, 50.0, 100.0]))})
+        spec["updates"] = ups
+    return spec
+
+
+def base_cases():
     return sc.scenarios(
         kinds=("cont0", "finite"),
         scheduler="sorted",
@@ -165,7 +208,7 @@ def subchecks(tier):
             prop,
             quick=400,
             thorough=30000,
-            floors={"binding_constraint": 0.225, "estimator_bound_below_max": 0.076, "uninterrupted": 0.15, "sched_rr": 0.127, "sched_greedy": 0.265, "has_continuous_evse": 0.4, "has_finite_evse": 0.312},
+            floors={"constraint_updated_mid_run": 0.08, "binding_constraint": 0.225, "estimator_bound_below_max": 0.076, "uninterrupted": 0.15, "sched_rr": 0.127, "sched_greedy": 0.265, "has_continuous_evse": 0.4, "has_finite_evse": 0.312},
         )
     ]
 
